@@ -15,7 +15,7 @@ RULE = ('five Hypothesis sub-checks.  djs_reject: data/model 1-D 5-80 (2-D for g
         'noconst, mean, nothing): flux unchanged where ivar != 0.  skymask: mask dtype int16/int32/int64/uint64, BADSKYCHI/REDMONSTER on '
         'harness-chosen bits representable in that dtype, other bits set at random, ngrow 0-4: result == invvar x (no flagged pixel within ngrow along '
         'the row).  Non-trivial: rejected point next to a good one with grow >= 1; masked run touching an array end; flagged pixel within ngrow of a row end.')
-ASSUMPTIONS = ['djs_reject: maxrej/groupsize/groupdim/groupbadpix are not part of the statement and not generated; sigma or invvar is always supplied and sigma > 0',
+ASSUMPTIONS = ['djs_reject: maxrej/groupsize/groupdim/groupbadpix are not part of the statement and not generated; sigma or invvar is always supplied; a scalar sigma is > 0, a sigma array may contain exact zeros (zero-width band)',
                'xval values are distinct within a line',
                'the SPPIXMASK bit table is installed by the harness per case (bits below the sign bit of the mask dtype)',
                'median widths are odd and <= the array size along every axis']
@@ -63,6 +63,10 @@ def reject_body(case):
     sigv = 0.5 + 0.4 * np.abs(np.cos(idx * 1.1 + case['seed']))
     if case['wkind'] == 'sigma-scalar':
         sigv = np.full(n, 0.7)
+    sig0 = np.zeros(n, dtype=bool)
+    if case['wkind'] == 'sigma-array':
+        # a supplied sigma of exactly 0 is a zero-width band: any non-zero residual on the limited side is beyond the limit
+        sig0 = np.array(case['zero_w'])
     weightless = np.zeros(n, dtype=bool)
     if case['wkind'] == 'invvar':
         weightless = np.array(case['zero_w'])
@@ -73,6 +77,15 @@ def reject_body(case):
     for i in range(n):
         d, f = case['dev'][i], case['frac'][i]
         s = sigv[i]
+        if sig0[i]:
+            sigv[i] = 0.0
+            if d == 'in':
+                diff[i] = 0.0
+            else:
+                pos = d in ('hi', 'edge-hi-out', 'edge-hi-in')
+                diff[i] = (0.01 + f) * (1 if pos else -1) * (0.5 if 'maxdev' not in lims else 0.5 * maxdev)
+                bad[i] = ('upper' in lims) if pos else ('lower' in lims)
+            continue
         up_lim = min([upper * s] * ('upper' in lims) + [maxdev] * ('maxdev' in lims) + [np.inf])
         lo_lim = min([lower * s] * ('lower' in lims) + [maxdev] * ('maxdev' in lims) + [np.inf])
         if d == 'in':
